@@ -57,7 +57,7 @@ def cases(ctx):
     S, N = ctx.shard, ctx.nshards
     k = 0
     lens = list(range(0, 65)) + [100, 1000, 16383, 16384, 40000]
-    reps = 12 if t else 1
+    reps = 20 if t else 1
     for rep in range(reps):
         for L in lens:
             k += 1
@@ -69,7 +69,7 @@ def cases(ctx):
                 yield {"k": "enc", "a": "%064x" % a, "b": "%064x" % b, "ca": r.random() < 0.5, "cb": r.random() < 0.5, "msg": gen.rbytes(r, L).hex(), "exclude": exclude, "mode": "encrypt", "other": "%064x" % r.randrange(1, ec.N), "seed": r.getrandbits(30)}
     if S == 0:
         ctx.exhaustive.append("every message length 0..64 x both inclusion modes; all single-bit flips of each serialised ciphertext with message <= 48 bytes")
-    for i in range(40 if t else 4):
+    for i in range(120 if t else 4):
         a, b = r.randrange(1, ec.N), r.randrange(1, ec.N)
         base = {"k": "enc", "a": "%064x" % a, "b": "%064x" % b, "ca": r.random() < 0.5, "cb": r.random() < 0.5, "msg": gen.rbytes(r, r.choice([0, 5, 16, 31, 32, 70])).hex(), "exclude": False, "other": "%064x" % r.randrange(1, ec.N), "seed": r.getrandbits(30)}
         yield dict(base, mode="self")
